@@ -17,6 +17,12 @@ func init() {
 			// the reader's own header decoder and the header rules it applies
 			c01Decoder(c, "C04.decode-table", c.method("C04.decode-table", wsutil, "Reader", "readHeader"), true)
 			c03CheckHeader(c)
+			// control frames between messages are consumed by the handlers: what they leave on the
+			// stream is where the next frame is looked for
+			handlerRules(c, "C04")
+			// ReadMessage / ReadData validate text: a wrong automaton refuses a valid message
+			c07DFA(c)
+			c07Read(c)
 		},
 	})
 }
